@@ -179,6 +179,7 @@ def newRecoverRequest (H : HashFam) (i : RecoverInfo) : Option Json :=
           | none => none
           | some dh =>
             if !commitmentDiffers H k i.code i.recoveryCommitment then none
+            else if !commitmentDiffers H k i.code i.updateCommitment then none   -- nor as the next update key (D33)
             else match signModel (recoverSignedJson (some k) dh i.recoveryCommitment i.anchorOrigin i.anchorFrom i.anchorUntil) s with
               | none => none
               | some compact => some (signedRequestJson "recover" i.didSuffix i.revealValue compact (some delta))
